@@ -1093,7 +1093,20 @@ func callBuiltin(caller *frame, callpos token.Pos, fn *ssa.Builtin, args []value
 func rangeIter(x value, t types.Type) iter {
 	switch x := x.(type) {
 	case *omap:
-		return &omapIter{m: x}
+		it := &omapIter{m: x}
+		if explorer != nil && explorer.Params["maporder"] > 0 && x.len() > 1 && x.len() <= explorer.Params["maporder"] {
+			// unspecified iteration order: fork over the rotations of the live entries (entries inserted during
+			// the iteration are not visited, which the specification allows)
+			var live []int
+			for i, e := range x.entries {
+				if !e.deleted {
+					live = append(live, i)
+				}
+			}
+			r := explorer.choose(len(live))
+			it.order = append(append([]int{}, live[r:]...), live[:r]...)
+		}
+		return it
 	case symstr:
 		return &symstrIter{s: x}
 	case string:
